@@ -37,6 +37,7 @@ CHECKS["C03"] = {
     "mc_explanation": "stateless exploration of the real parser: states = distinct observed callback traces, transitions = data calls executed; every trace is an implementation trace",
     "assumptions": ["requests are delivered before responses so that only segmentation varies", "IDS personality with both body parsers"],
     "jobs": lambda tier: [J("cutmc", "plain", ["--mode", "seg"]),
+                          J("cutmc", "plain", ["--mode", "seg", "--source", "bases", "--layers", "2" if tier == "quick" else "3"]),
                           J("cutmc", "asan", ["--mode", "seg", "--layers", "1" if tier == "quick" else "2"])],
 }
 
@@ -48,6 +49,7 @@ def _statemc(props_hint, tier, asan_too=True, raw_too=False, limits=False):
         J("statemc", "plain", ["--alphabet", "micro", "--depth", "4" if q else "5", "--cfg", "0"]),
         J("statemc", "plain", ["--alphabet", "macro", "--depth", "5" if q else "7", "--cfg", "0"]),
         J("statemc", "plain", ["--alphabet", "micro", "--depth", "3" if q else "4", "--cfg", "0", "--devdepth", "3" if q else "4", "--ndev", "1"]),
+        J("statemc", "plain", ["--alphabet", "macro", "--depth", "4" if q else "5", "--cfg", "0", "--devdepth", "3" if q else "4", "--ndev", "1"]),
         J("statemc", "plain", ["--alphabet", "micro", "--depth", "4" if q else "5", "--cfg", "1"]),
         J("statemc", "plain", ["--alphabet", "macro", "--depth", "5" if q else "6", "--cfg", "1"]),
     ]
@@ -65,6 +67,16 @@ def _statemc(props_hint, tier, asan_too=True, raw_too=False, limits=False):
     return jobs
 
 
+def _edits(tier, flavour="plain"):
+    """E1 cutmc edits: base exchanges with <= E token-level edits under every schedule with <= P preemptions (defaults: quick E=1 P=1, thorough E=2 P=2/1)"""
+    return [J("cutmc", flavour, ["--mode", "edits"])]
+
+
+_EDITS_RULE = ("; cutmc edits: 20 base exchanges (plain, bodies, chunked+trailers, HEAD, PUT, 100-continue, 0.9, pipelines, CONNECT accepted/refused, upgrade, close-delimited, "
+               "folded headers, urlencoded, multipart, invalid / valid gzip) with <= E token-level edits (insert / delete / duplicate / replace by a pool token, truncate, stream gap) under every "
+               "schedule of the two token lists with <= P preemptions")
+
+
 _STATEMC_RULE = ("E2 statemc: breadth-first search over event histories (request/response tokens of the micro or macro alphabet, stream gaps, close, "
                  "request-close, tx destroy, tx_freed; optionally one callback deviation per history), each history replayed on a fresh real parser, states "
                  "de-duplicated by a 128-bit hash of the exact canonical parser state; every transition runs all monitors and ends with a full teardown; "
@@ -80,11 +92,11 @@ CHECKS["C05"] = {
     "level_note": "Executions in which a callback answers STOP/ERROR or destroys a transaction are not judged (the statement quantifies over inputs, chunkings and interleavings). "
                   "Raw *_HEADER_DATA/*_TRAILER_DATA callbacks and the end-of-body marker are only required to precede the side's COMPLETE. Token alphabets in mc/statemc.c.",
     "design_ref": "DESIGN.md §5 E2, §6 C05",
-    "rule": _STATEMC_RULE,
+    "rule": _STATEMC_RULE + _EDITS_RULE,
     "bounds": {"quick": "micro depth 4 (2 cfgs), macro depth 5 (2 cfgs), micro depth 3 with one callback deviation", "thorough": "micro depth 5, macro depth 7/6, deviations to depth 4, 4 cfgs"},
     "mc_explanation": "states/transitions are those of the implementation itself (no model): the transition function is htp_connp_req_data/res_data/close on a replayed history",
     "assumptions": ["token alphabets of mc/statemc.c", "exact canonical state (DESIGN §4.3)"],
-    "jobs": lambda tier: _statemc("C05", tier, asan_too=False),
+    "jobs": lambda tier: _statemc("C05", tier, asan_too=False) + _edits(tier),
 }
 
 
@@ -99,14 +111,15 @@ CHECKS["C06"] = {
     "level_note": "message_len may include or exclude the trailer section (header comment vs code; both accepted). Followers use methods libhtp knows (an unknown method after a body is "
                   "documented behaviour of the REQ_FINALIZE probe, not judged here). M-acct also rides on statemc for 'every input'.",
     "design_ref": "DESIGN.md §6 C06",
-    "rule": "bodies x framings x chunk-size compositions x {uncut, every single cut, every pair in the framing region, 1-byte}; distinct = distinct callback traces per case",
-    "bounds": {"quick": "bodies <=4 over 6 symbols (1555) + 12 look-alikes; ASan pass on bodies <=2", "thorough": "bodies <=5 (9331); ASan pass on bodies <=3; statemc M-acct micro depth 5"},
+    "rule": "bodies x framings x chunk-size compositions x {uncut, every single cut, every pair in the framing region, 1-byte}; distinct = distinct callback traces per case" + _EDITS_RULE,
+    "bounds": {"quick": "bodies <=4 over 6 symbols (1555) + 12 look-alikes, long chunk extensions on bodies <=2; ASan pass on bodies <=2; edits E=1 P=1", "thorough": "bodies <=5 (9331), long chunk extensions on bodies <=4; ASan pass on bodies <=3; statemc M-acct micro depth 5; edits E=2 P=2/1"},
+    "deadline": {"quick": 300},
     "mc_explanation": "states = distinct callback traces observed, transitions = data calls executed on the real parser",
     "assumptions": ["IDS personality", "requests delivered before responses"],
     "jobs": lambda tier: [J("cutmc", "plain", ["--mode", "body"]),
                           J("cutmc", "asan", ["--mode", "body", "--maxlen", "2" if tier == "quick" else "3"]),
                           J("statemc", "plain", ["--alphabet", "micro", "--depth", "4" if tier == "quick" else "5", "--cfg", "0"]),
-                          J("statemc", "plain", ["--alphabet", "macro", "--depth", "5" if tier == "quick" else "6", "--cfg", "0"])],
+                          J("statemc", "plain", ["--alphabet", "macro", "--depth", "5" if tier == "quick" else "6", "--cfg", "0"])] + _edits(tier),
 }
 
 
@@ -158,11 +171,11 @@ CHECKS["C09"] = {
     "level_note": "What htp_connp_close() does after STOP, and data calls issued after the caller closed a direction, are outside the statement. Calls short-circuited by a sticky state may or "
                   "may not advance the byte counters (the code counts after the guards).",
     "design_ref": "DESIGN.md §6 C09",
-    "rule": _STATEMC_RULE + "; plus cutmc pair/tunnel schedules",
+    "rule": _STATEMC_RULE + "; plus cutmc pair/tunnel schedules" + _EDITS_RULE,
     "bounds": {"quick": "statemc micro 4 / macro 5, deviations depth 3, raw-order micro 3 / macro 4; C04 N<=3 and C16 schedules", "thorough": "one level deeper everywhere"},
     "mc_explanation": "states/transitions of the implementation itself; stateless workloads add distinct callback traces / data calls",
     "assumptions": ["token alphabets of mc/statemc.c"],
-    "jobs": lambda tier: _statemc("C09", tier, asan_too=False, raw_too=True) + [J("cutmc", "plain", ["--mode", "pair"]), J("cutmc", "plain", ["--mode", "tunnel"])],
+    "jobs": lambda tier: _statemc("C09", tier, asan_too=False, raw_too=True) + [J("cutmc", "plain", ["--mode", "pair"]), J("cutmc", "plain", ["--mode", "tunnel"])] + _edits(tier),
 }
 
 
@@ -252,14 +265,14 @@ CHECKS["C10"] = {
     "level_note": "The heap measure counts bytes requested through malloc/calloc/realloc/strdup inside libhtp (zlib's own allocations are outside). Exact equality is deliberate: the allocator "
                   "wrapper is deterministic and a tolerance would hide slow leaks.",
     "design_ref": "DESIGN.md §6 C10",
-    "rule": _STATEMC_RULE + "; cutmc limits: limit x line kind x field length x all cut pairs; steady-state repetitions",
+    "rule": _STATEMC_RULE + "; cutmc limits: limit x line kind x field length x all cut pairs; steady-state repetitions" + _EDITS_RULE,
     "bounds": {"quick": "statemc micro depth 4 (cfg 2) / 3 (cfg 5); limits {8,24,64} x 6 kinds x 8 lengths x all cut pairs; steady N=1000 x 52 exchanges", "thorough": "statemc one level deeper; steady N=10000"},
     "mc_explanation": "states/transitions of the implementation; stateless workloads add distinct callback traces / data calls",
     "assumptions": ["token alphabets of mc/statemc.c", "slot grammar of mc/gen.c for the steady-state shapes"],
     "jobs": lambda tier: [J("statemc", "plain", ["--alphabet", "micro", "--depth", "4" if tier == "quick" else "5", "--cfg", "2"]),
                           J("statemc", "plain", ["--alphabet", "micro", "--depth", "3" if tier == "quick" else "4", "--cfg", "5"]),
                           J("statemc", "plain", ["--alphabet", "macro", "--depth", "5" if tier == "quick" else "6", "--cfg", "2"]),
-                          J("cutmc", "plain", ["--mode", "limits"]), J("cutmc", "asan", ["--mode", "limits", "--steady-n", "200"])],
+                          J("cutmc", "plain", ["--mode", "limits"]), J("cutmc", "asan", ["--mode", "limits", "--steady-n", "200"])] + _edits(tier),
 }
 
 CHECKS["C01"] = {
@@ -275,7 +288,7 @@ CHECKS["C01"] = {
     "level_note": "Depth-bounded: byte values outside the token alphabets are covered only by the byte-level engines (C12-C15, C17 run under ASan too); chunk sizes > 64 KiB and overflows that "
                   "need gigabyte inputs are not explored. TRANSACTION_COMPLETE destroying its own transaction is explored as a separately labelled scenario.",
     "design_ref": "DESIGN.md §6 C01",
-    "rule": _STATEMC_RULE + "; cutmc corpus: capture x cfg x {every single extra cut, 1/2/3-byte}",
+    "rule": _STATEMC_RULE + "; cutmc corpus: capture x cfg x {every single extra cut, 1/2/3-byte}" + _EDITS_RULE,
     "bounds": {"quick": "ASan: micro depth 3 with deviations to depth 3, macro depth 4 (auto-destroy) with deviations to depth 2, raw micro 3; plain leak pass micro 4 / macro 5; corpus single cuts",
                "thorough": "one level deeper everywhere, 6 configurations, corpus cut pairs within 24 bytes"},
     "mc_explanation": "states/transitions of the implementation; corpus re-cuts add distinct callback traces / data calls",
@@ -298,7 +311,7 @@ def _c01_jobs(tier):
         J("cutmc", "asan", ["--mode", "corpus"]),
         # labelled scenario: TRANSACTION_COMPLETE destroys its own transaction (auto-destroy off)
         J("statemc", "asan", ["--alphabet", "macro", "--depth", d("4", "5"), "--cfg", "0", "--devdepth", d("4", "5"), "--selfdestroy"]),
-    ]
+    ] + _edits(tier, "asan")
     if not q:
         jobs += [J("statemc", "asan", ["--alphabet", "micro", "--depth", "3", "--cfg", str(c), "--devdepth", "2"]) for c in (3, 4, 5, 9, 13)]
     return jobs
